@@ -8,9 +8,14 @@ INJECT = {
     "syntax": [
         ("harness/syntax/common_h.rs", "crates/syntax/src/lib.rs", "verif_common"),
         ("harness/syntax/lexer_h.rs", "crates/syntax/src/lexer.rs", "verif_lexer_h"),
+        ("harness/syntax/preproc_h.rs", "crates/syntax/src/preprocessor.rs", "verif_preproc_h"),
     ],
-    "ide": [],
-    "lsp": [],
+    "ide": [
+        ("harness/ide/line_index_h.rs", "crates/ide/src/line_index.rs", "verif_line_index_h"),
+    ],
+    "lsp": [
+        ("harness/lsp/position_h.rs", "crates/lsp/src/lib.rs", "verif_position_h"),
+    ],
 }
 
 MODPATH = {
@@ -21,6 +26,7 @@ MODPATH = {
     "crates/syntax/src/grammar.rs": "grammar",
     "crates/ide/src/symbol_map/typ.rs": "symbol_map::typ",
     "crates/ide/src/lib.rs": "",
+    "crates/ide/src/line_index.rs": "line_index",
     "crates/lsp/src/lib.rs": "",
     "crates/lsp/src/to_proto.rs": "to_proto",
 }
@@ -31,6 +37,7 @@ PATCHES = {}
 KF_IDS = [
     "C14_DIGIT_LEADING_IDENT", "C14_ESCAPED_BACKSLASH_BEFORE_QUOTE",
     "C14_NESTED_BLOCK_COMMENT", "C14_SIGN_AT_EOF",
+    "C15_EOF_IN_DISABLED_REGION", "C15_UNTERMINATED_ENABLED_CONDITIONAL",
 ]
 
 
@@ -57,6 +64,27 @@ HARNESSES = [
     H(f"c14c01c02_lex_{r}_t", ["C14", "C01", "C02", "C17"], tier="thorough", timeout=3600, weight=200)
     for r in ["whitespace", "line_comment", "block_comment", "number", "identifier", "string",
               "var_name", "code", "hash"]
+]
+HARNESSES += [
+    H(f"c10_{f}_b{b}", ["C10"], weight=10 + 10 * b, timeout=1500,
+      allow_unreachable_w=True)
+    for f in ["new", "to", "from"] for b in range(0, 6)
+] + [
+    H("c10_lsp_passthrough", ["C10"], weight=30, stubs=2),
+] + [
+    H(f"c10_{f}_b{b}", ["C10"], tier="thorough", weight=300, timeout=7200, mem_gb=30, allow_unreachable_w=True)
+    for f in ["new", "to", "from"] for b in (6, 7, 8)
+]
+HARNESSES += [
+    H(f"c15c01c02_pp_{n}_q", ["C15", "C01", "C02"], weight=15,
+      allow_unreachable_w=n in ("endif", "define", "plain", "eof"))
+    for n in ["ifdef", "ifndef", "else", "endif", "define", "plain", "eof"]
+] + [
+    H("c15c01c02_pp_passthrough", ["C15", "C01", "C02"], weight=15),
+    H("c15_pp_unterminated_enabled", ["C15"], weight=15),
+] + [
+    H(f"c15c01c02_pp_{n}_t", ["C15", "C01", "C02"], tier="thorough", weight=100, timeout=3600)
+    for n in ["ifdef", "ifndef", "else"]
 ]
 
 
